@@ -319,7 +319,7 @@ func (x *Exec) initWorker() {
 	if P.cli != nil {
 		initPkgs = append(initPkgs, P.cli)
 	}
-	for _, extra := range []string{"errors", "sort", "strings", "strconv", "unicode", "os", "flag", "io"} {
+	for _, extra := range []string{"errors", "sort", "strings", "strconv", "unicode", "os", "flag", "io", "sync"} {
 		if p := P.prog.ImportedPackage(extra); p != nil {
 			// globals only (zero-valued); their init functions are not run
 			for _, m := range p.Members {
@@ -459,6 +459,7 @@ func (x *Exec) resetPath() {
 	x.known = map[string]uint64{}
 	x.notEq = map[string]map[uint64]bool{}
 	x.roots, x.tape, x.notes, x.abstract = nil, nil, nil, nil
+	x.syncMaps, x.onceDone = nil, nil
 	x.steps, x.depth, x.epoch, x.monitor, x.catching = 0, 0, 1, false, 0
 	x.curFn, x.curIn = nil, nil
 	x.funcs = map[*ssa.Function]bool{}
